@@ -35,6 +35,7 @@ type Val struct {
 	Tup   []Val
 	Elems []Val // static contents of a slice built from a local array
 	Static *Val  // for an element address: the statically known content
+	Iter  string // state component holding the visited set of a map iterator
 	Off   string // element offset of a sub-slice s[lo:] (translator-level; such values must not escape)
 	Fresh bool  // reference allocated during this execution
 }
